@@ -61,50 +61,7 @@ def check(ctx):
 
     # ------------------------------------------------------------------ R2 type predicate
     r2 = ctx.rule('R2', '_type_is_introspectable rejects unresolved/unknown/va_list/long long/long double/missing or hidden targets, recurses into containers', floor=9)
-    tp = py.func(IP, 'IntrospectablePass._type_is_introspectable')
-    TP = gsa.summarise(ctx, IP, 'IntrospectablePass._type_is_introspectable')
-    tv = re.escape(TP.P(1))
-
-    def tdecide(resolved=True, unknown=False, kind=None, foreign=False, fundamental=None, found=True):
-        def dec(a_):
-            if re.search(r'^%s\.resolved$' % tv, a_):
-                return resolved
-            mm = re.search(r'^isinstance\(%s, ast\.(\w+)\)$' % tv, a_)
-            if mm:
-                return (mm.group(1) == 'TypeUnknown' and unknown) or mm.group(1) == kind
-            if re.search(r'^%s\.target_foreign$' % tv, a_):
-                return foreign
-            if re.search(r'^%s\.target_fundamental$' % tv, a_):
-                return fundamental is not None
-            mm = re.search(r'^%s\.is_equiv\((.*)\)$' % tv, a_)
-            if mm:
-                return fundamental is not None and fundamental in re.findall(r'ast\.(TYPE_\w+)', mm.group(1))
-            if re.search(r'lookup_typenode\(%s\)$' % tv, a_):
-                return found
-            return None
-        return dec
-
-    def verdict(**kw):
-        return gsa.truth_returns(TP, tdecide(**kw))
-    for what, kw in (('unresolved', dict(resolved=False)), ('TypeUnknown', dict(unknown=True)), ('va_list', dict(fundamental='TYPE_VALIST')), ('long long', dict(fundamental='TYPE_LONG_LONG')),
-                     ('unsigned long long', dict(fundamental='TYPE_LONG_ULONG')), ('long double', dict(fundamental='TYPE_LONG_DOUBLE')), ('unknown target', dict(found=False))):
-        got = verdict(**kw)
-        r2.check(got == [(False, True)], '%s -> not introspectable' % what, rel, tp.lineno, 'a type that is %s is judged %s' % (what, got), detail=str(got))
-    got = verdict(fundamental='TYPE_INT')
-    r2.check(got == [(True, True)], 'ordinary fundamental types are introspectable', rel, tp.lineno, 'gint is judged %s' % got)
-    got = verdict()
-    r2.check(len(got) == 1 and isinstance(got[0][0], str) and re.search(r'\.introspectable and \(?not .*\.skip\)?$', got[0][0]), 'target must itself be introspectable and not skipped', rel, tp.lineno,
-             'for a registered target the verdict is %s' % got)
-    for kind in ('Array', 'List'):
-        got = verdict(kind=kind)
-        r2.check(got == [('self._type_is_introspectable(%s.element_type)' % TP.P(1), True)], 'recursion into %s elements' % kind.lower(), rel, tp.lineno, 'element recursion changed: %s' % got)
-    got = verdict(kind='Map')
-    r2.check(len(got) == 1 and isinstance(got[0][0], str) and '_type_is_introspectable(%s.key_type)' % TP.P(1) in got[0][0] and '_type_is_introspectable(%s.value_type)' % TP.P(1) in got[0][0] and ' and ' in got[0][0],
-             'recursion into map key and value', rel, tp.lineno, 'map recursion changed: %s' % got)
-    got = verdict(resolved=False, kind='Array')
-    r2.check(got == [(False, True)], 'resolution checked first', rel, tp.lineno, 'an unresolved array type is judged %s' % got)
-
-    included_flags_rule(ctx, r2)
+    type_verdict_rule(ctx, r2)
 
     # ------------------------------------------------------------------ R3 coverage of type-carrying members, propagation rounds
     r3 = ctx.rule('R3', 'every type-carrying member kind has a demoting site in a registered pass; propagation rounds', floor=10)
@@ -238,3 +195,54 @@ def _ancestors(n):
     while n is not None:
         yield n
         n = P.parent(n)
+
+
+def type_verdict_rule(ctx, r2):
+    """verdicts of IntrospectablePass._type_is_introspectable under abstract valuations (shared with C15: what stays introspectable must be compilable)"""
+    py = ctx.py
+    rel = py.mod(IP).rel
+    tp = py.func(IP, 'IntrospectablePass._type_is_introspectable')
+    TP = gsa.summarise(ctx, IP, 'IntrospectablePass._type_is_introspectable')
+    tv = re.escape(TP.P(1))
+
+    def tdecide(resolved=True, unknown=False, kind=None, foreign=False, fundamental=None, found=True):
+        def dec(a_):
+            if re.search(r'^%s\.resolved$' % tv, a_):
+                return resolved
+            mm = re.search(r'^isinstance\(%s, ast\.(\w+)\)$' % tv, a_)
+            if mm:
+                return (mm.group(1) == 'TypeUnknown' and unknown) or mm.group(1) == kind
+            if re.search(r'^%s\.target_foreign$' % tv, a_):
+                return foreign
+            if re.search(r'^%s\.target_fundamental$' % tv, a_):
+                return fundamental is not None
+            mm = re.search(r'^%s\.is_equiv\((.*)\)$' % tv, a_)
+            if mm:
+                return fundamental is not None and fundamental in re.findall(r'ast\.(TYPE_\w+)', mm.group(1))
+            if re.search(r'lookup_typenode\(%s\)$' % tv, a_):
+                return found
+            return None
+        return dec
+
+    def verdict(**kw):
+        return gsa.truth_returns(TP, tdecide(**kw))
+    for what, kw in (('unresolved', dict(resolved=False)), ('TypeUnknown', dict(unknown=True)), ('va_list', dict(fundamental='TYPE_VALIST')), ('long long', dict(fundamental='TYPE_LONG_LONG')),
+                     ('unsigned long long', dict(fundamental='TYPE_LONG_ULONG')), ('long double', dict(fundamental='TYPE_LONG_DOUBLE')), ('unknown target', dict(found=False))):
+        got = verdict(**kw)
+        r2.check(got == [(False, True)], '%s -> not introspectable' % what, rel, tp.lineno, 'a type that is %s is judged %s' % (what, got), detail=str(got))
+    got = verdict(fundamental='TYPE_INT')
+    r2.check(got == [(True, True)], 'ordinary fundamental types are introspectable', rel, tp.lineno, 'gint is judged %s' % got)
+    got = verdict()
+    r2.check(len(got) == 1 and isinstance(got[0][0], str) and re.search(r'\.introspectable and \(?not .*\.skip\)?$', got[0][0]), 'target must itself be introspectable and not skipped', rel, tp.lineno,
+             'for a registered target the verdict is %s' % got)
+    for kind in ('Array', 'List'):
+        got = verdict(kind=kind)
+        r2.check(got == [('self._type_is_introspectable(%s.element_type)' % TP.P(1), True)], 'recursion into %s elements' % kind.lower(), rel, tp.lineno, 'element recursion changed: %s' % got)
+    got = verdict(kind='Map')
+    r2.check(len(got) == 1 and isinstance(got[0][0], str) and '_type_is_introspectable(%s.key_type)' % TP.P(1) in got[0][0] and '_type_is_introspectable(%s.value_type)' % TP.P(1) in got[0][0] and ' and ' in got[0][0],
+             'recursion into map key and value', rel, tp.lineno, 'map recursion changed: %s' % got)
+    got = verdict(resolved=False, kind='Array')
+    r2.check(got == [(False, True)], 'resolution checked first', rel, tp.lineno, 'an unresolved array type is judged %s' % got)
+
+    included_flags_rule(ctx, r2)
+
